@@ -6,6 +6,7 @@ import (
 	"fmt"
 	"io/ioutil"
 	"os"
+	"strconv"
 	"strings"
 	"testing"
 
@@ -16,8 +17,9 @@ import (
 // verifC12Rank recovers the order in which balanceBlock ranks the servers for a block, by asking
 // for desired replication 1..N with a single old replica on the first server: the set of wanted
 // slots (pull targets plus the replica holder once it is in the top d) grows by one server per
-// step, in ranking order.
-func verifC12Rank(hash string, uuids []string) (out string) {
+// step, in ranking order. Every mount has replication rep and the desired replication is d*rep, so
+// that the number of wanted slots is d while the desired count exceeds the slot count for d > N/rep.
+func verifC12Rank(hash string, uuids []string, rep int) (out string) {
 	defer func() {
 		if r := recover(); r != nil {
 			out = fmt.Sprintf("panic %v", r)
@@ -33,7 +35,7 @@ func verifC12Rank(hash string, uuids []string) (out string) {
 		for i, u := range uuids {
 			srv := &KeepService{KeepService: arvados.KeepService{UUID: u}}
 			srv.mounts = []*KeepMount{{
-				KeepMount:   arvados.KeepMount{UUID: fmt.Sprintf("zzzzz-mount-%015x", i), Replication: 1},
+				KeepMount:   arvados.KeepMount{UUID: fmt.Sprintf("zzzzz-mount-%015x", i), Replication: rep},
 				KeepService: srv,
 			}}
 			srv.ChangeSet = &ChangeSet{}
@@ -45,7 +47,7 @@ func verifC12Rank(hash string, uuids []string) (out string) {
 		bal.setupLookupTables()
 		blk := &BlockState{
 			Replicas: []Replica{{KeepMount: srvs[0].mounts[0], Mtime: 1}},
-			Desired:  map[string]int{"default": d},
+			Desired:  map[string]int{"default": d * rep},
 		}
 		bal.balanceBlock(arvados.SizedDigest(hash+"+3"), blk)
 		var wanted []string
@@ -98,10 +100,18 @@ func TestVerifC12(t *testing.T) {
 	sc.Buffer(make([]byte, 1<<20), 1<<26)
 	for sc.Scan() {
 		f := strings.Split(sc.Text(), " ")
-		if len(f) != 3 || f[0] != "bal" || f[2] == "-" {
+		if (len(f) != 3 && len(f) != 4) || f[0] != "bal" || f[2] == "-" {
 			fmt.Fprintln(w, "bad-op")
 			continue
 		}
-		fmt.Fprintln(w, verifC12Rank(f[1], strings.Split(f[2], ",")))
+		rep := 1
+		if len(f) == 4 {
+			rep, _ = strconv.Atoi(f[3])
+			if rep < 1 {
+				fmt.Fprintln(w, "bad-op")
+				continue
+			}
+		}
+		fmt.Fprintln(w, verifC12Rank(f[1], strings.Split(f[2], ","), rep))
 	}
 }
